@@ -101,7 +101,21 @@ func checkC01(w *World, r *Report) {
 				if u, ok := x.Map.(*ssa.UnOp); ok && u.Op == token.MUL {
 					addr, kind = u.X, "map update"
 				}
+			case *ssa.Call:
+				// sync/atomic writes through the address of a field
+				if f := calleeFunc(x); f != nil && f.Pkg() != nil && f.Pkg().Path() == "sync/atomic" && len(x.Call.Args) > 0 {
+					nm := f.Name()
+					if strings.HasPrefix(nm, "Store") || strings.HasPrefix(nm, "Add") || strings.HasPrefix(nm, "Swap") || strings.HasPrefix(nm, "CompareAndSwap") || strings.HasPrefix(nm, "Or") || strings.HasPrefix(nm, "And") || nm == "Store" || nm == "Add" || nm == "Swap" || nm == "CompareAndSwap" {
+						addr, kind = x.Call.Args[0], "atomic write"
+					}
+				}
+				if addr == nil {
+					return
+				}
 			default:
+				return
+			}
+			if addr == nil {
 				return
 			}
 			root, path, ok := addrPath(addr)
@@ -140,6 +154,47 @@ func checkC01(w *World, r *Report) {
 	}
 	r.Counts["render-only reachable functions"] = len(ro)
 
+	// ---- R01.11: a Template is finished when it is handed out.  Outside render paths too, no
+	// function stores into a field of a *Template it did not create itself (a parameter, a table
+	// entry): a registered or shared template that one engine re-binds (engine, env, loader) changes
+	// under every other holder — what a render of it does then depends on who registered it last.
+	n11 := 0
+	for _, fn := range w.pkgFuncs() {
+		instrsOf(fn, func(in ssa.Instruction) {
+			st, ok := in.(*ssa.Store)
+			if !ok {
+				return
+			}
+			fa, ok := st.Addr.(*ssa.FieldAddr)
+			if !ok {
+				return
+			}
+			if t, _ := fieldOfAddr(fa); t != "Template" {
+				return
+			}
+			n11++
+			switch base := unspill(fa.X).(type) {
+			case *ssa.Alloc:
+				return // &Template{…} under construction
+			case *ssa.Parameter:
+				_, f := fieldOfAddr(fa)
+				// a method of Template maintaining its own bookkeeping under its own lock is not
+				// re-binding; what is reported is a foreign function writing identity fields
+				if fn.Signature.Recv() != nil && fn.Params[0] == base {
+					return
+				}
+				// what decides how the template renders: its tree, its source, and the engine,
+				// environment and loader it resolves names through (timestamps are bookkeeping)
+				switch f {
+				case "engine", "env", "nodes", "source", "name", "loader":
+				default:
+					return
+				}
+				r.bad("R01.11", ssaName(fn), "store Template."+f+" on a template handed in", w.posOf(in.Pos()), "the function writes a field of a *Template it received as an argument: the template may be registered with, cached by or shared between other engines, whose renders of it change from then on (another environment's globals, filters and loaders)")
+			}
+		})
+	}
+	r.ok("R01.11", "(package)", "templates are written only while they are built", "-", fmt.Sprintf("%d stores into Template fields examined", n11), true)
 	checkR01_3(w, r, pools)
 	checkR01_4(w, r)
 	checkUseAfterRelease(w, r)
